@@ -57,8 +57,11 @@ func classify() string {
 		s := ""
 		if strings.HasPrefix(name, "github.com/palomachain/paloma/v2/") && !strings.Contains(name, "/zzverif/") {
 			file, line := f.FileLine(pc - 1)
-			if i := strings.Index(file, "/repo/"); i >= 0 {
-				file = file[i+6:]
+			for _, marker := range []string{"/x/", "/util/", "/app/", "/internal/"} {
+				if i := strings.LastIndex(file, marker); i >= 0 {
+					file = file[i+1:]
+					break
+				}
 			}
 			s = fmt.Sprintf("%s:%d", file, line)
 		}
@@ -68,9 +71,9 @@ func classify() string {
 	return ""
 }
 
-func iterHook() uint64 {
-	if !active {
-		return 0
+func iterHook(n int) uint64 {
+	if !active || n < 2 {
+		return 0 // a map with fewer than two entries has one iteration order
 	}
 	mu.Lock()
 	defer mu.Unlock()
@@ -85,7 +88,7 @@ func iterHook() uint64 {
 	}
 	count++
 	if recording {
-		sites = append(sites, mapSite{Index: count, Site: site})
+		sites = append(sites, mapSite{Index: count, Site: site, Count: n})
 	}
 	if count == target {
 		return rot
@@ -119,4 +122,8 @@ func mapEnd(d dev, h *history) {
 	h.lastMapCount = count
 }
 
-func setClockSkew(sec int64) { time.VerifSkewSeconds = sec }
+// The default wall clock of an execution sits at chain time (as on a node that
+// executes blocks live); baseSkew moves the real clock there.
+var baseSkew = func() int64 { return 1_700_000_000 - time.Now().Unix() }()
+
+func setClockSkew(sec int64) { time.VerifSkewSeconds = baseSkew + sec }
